@@ -219,6 +219,174 @@ theorem repair_any_garbage_third_exact (P : Rat) (sg : Bool) (nowYear : Int) (hd
   rw [hbc] at hmany
   exact finish_from_zero_majority h hP hd hdec hcount (by omega)
 
+/-- with a whole-millisecond period a good line of a pass with intact days / years leaves stage 1 at EXACTLY its true
+time, which is also its recorded time -/
+theorem s1_good_exact (P : Rat) (sg : Bool) (nowYear : Int) (r : RawTimes) (hc : Clean nowYear r)
+    (hy : ∀ y ∈ r.year, y = r.year.headD 0) (hP : ∃ p : Int, P = (p : Rat)) (i : Nat) (hi : i < r.nums.length)
+    (hs : i < (s1Instants (stage1 P sg nowYear r)).length) (hr : i < (recorded r).length)
+    (hg : GoodAt P sg r i) :
+    (((s1Instants (stage1 P sg nowYear r))[i] : Int) : Rat) = ((lineIdx sg r.nums[i] : Int) : Rat) * P + passOffset P sg r ∧
+    (s1Instants (stage1 P sg nowYear r))[i] = (recorded r)[i] := by
+  obtain ⟨p, hp⟩ := hP
+  have hjlen : i < r.jday.length := by have := hc.len_j; omega
+  have hylen : i < r.year.length := by have := hc.len_y; omega
+  have hid := ideal_instant_identity P sg nowYear r hc hy i hi
+  obtain ⟨hm1, hm2, hcons⟩ := hg
+  -- the true time is a whole number
+  have htrue_int : ∃ w : Int, ((lineIdx sg r.nums[i] : Int) : Rat) * P + passOffset P sg r = (w : Rat) := by
+    unfold passOffset
+    refine ⟨lineIdx sg r.nums[i] * p + (instant (r.year.headD 0) (r.jday.headD 0) (r.msec.headD 0)
+      - lineIdx sg (r.nums.headD 0) * p), ?_⟩
+    rw [hp]; push_cast; ring
+  obtain ⟨w, hw⟩ := htrue_int
+  have hrec : (recorded r)[i] = instant r.year[i] r.jday[i] 0 + r.msec[i] := by
+    simp only [recorded, List.getElem_zipWith, List.getElem_zip]
+    exact instant_split _ _ _
+  -- recorded = true, because the ideal time of day is a whole number within 1 of the recorded one
+  have hrec_true : (((recorded r)[i] : Int) : Rat) = (w : Rat) := by
+    have hideal : (idealOfDay P sg r)[i] = (w : Rat) - ((instant r.year[i] r.jday[i] 0 : Int) : Rat) := by
+      rw [← hw]; linarith [hid]
+    rw [hideal] at hcons
+    rw [hrec]
+    have h1 : ((r.msec[i] - 1 : Int) : Rat) < ((w - instant r.year[i] r.jday[i] 0 : Int) : Rat) := by
+      push_cast; linarith [hcons.1]
+    have h2 : ((w - instant r.year[i] r.jday[i] 0 : Int) : Rat) < ((r.msec[i] + 1 : Int) : Rat) := by
+      push_cast; linarith [hcons.2]
+    have h1' : r.msec[i] - 1 < w - instant r.year[i] r.jday[i] 0 := by exact_mod_cast h1
+    have h2' : w - instant r.year[i] r.jday[i] 0 < r.msec[i] + 1 := by exact_mod_cast h2
+    have : instant r.year[i] r.jday[i] 0 + r.msec[i] = w := by omega
+    exact_mod_cast this
+  rcases s1_any_line P sg nowYear r hc hy i hi hs hr with hclose | heq
+  · rw [hw] at hclose ⊢
+    have hz : absR ((((s1Instants (stage1 P sg nowYear r))[i] - w : Int) : Rat)) < 1 := by push_cast; exact hclose
+    have := int_abs_lt_one _ hz
+    have hv : (s1Instants (stage1 P sg nowYear r))[i] = w := by omega
+    refine ⟨by rw [hv], ?_⟩
+    have : ((recorded r)[i] : Int) = w := by exact_mod_cast hrec_true
+    rw [hv, this]
+  · refine ⟨by rw [heq, hw]; exact hrec_true, heq⟩
+
+/-- **Garbage in the millisecond field of fewer than HALF of the lines, whole-millisecond period: repaired exactly.**
+Every returned time is within 10 s of the true time, every intact line is returned at exactly its recorded (= true)
+time, and every line whose sanitised time was further than 10 s off comes back at exactly its true time. -/
+theorem repair_ms_garbage_exact (P : Rat) (sg : Bool) (nowYear : Int) (h : Int) (r : RawTimes)
+    (hc : Clean nowYear r) (hy : ∀ y ∈ r.year, y = r.year.headD 0) (hP : ∃ p : Int, P = (p : Rat))
+    (hdec : (sg && decreasing r.nums) = false)
+    (good : List Bool) (hglen : good.length = r.nums.length)
+    (hgood : ∀ i (hi : i < good.length), good[i] = true → GoodAt P sg r i)
+    (hmaj : r.nums.length < 2 * good.count true)
+    (hhead : absR (passOffset P sg r - (h : Rat)) ≤ 360000 - 2) :
+    (getTimes {} P nowYear sg (some h) r).length = r.nums.length ∧
+    ∀ i (hi : i < r.nums.length) (h1 : i < (getTimes {} P nowYear sg (some h) r).length)
+      (h2 : i < (recorded r).length) (h3 : i < good.length) (h4 : i < (s1Instants (stage1 P sg nowYear r)).length),
+      absR ((((getTimes {} P nowYear sg (some h) r)[i] : Int) : Rat)
+        - (((lineIdx sg r.nums[i] : Int) : Rat) * P + passOffset P sg r)) ≤ 10000 ∧
+      (good[i] = true → (getTimes {} P nowYear sg (some h) r)[i] = (recorded r)[i]) ∧
+      (absR ((((s1Instants (stage1 P sg nowYear r))[i] : Int) : Rat)
+          - (((lineIdx sg r.nums[i] : Int) : Rat) * P + passOffset P sg r)) > 10000 →
+        (((getTimes {} P nowYear sg (some h) r)[i] : Int) : Rat)
+          = ((lineIdx sg r.nums[i] : Int) : Rat) * P + passOffset P sg r) := by
+  have hlen1 := s1_clean_length P sg nowYear r hc
+  set t1 := s1Instants (stage1 P sg nowYear r) with ht1
+  set tn := tnOf P sg r.nums with htn
+  have htnlen : tn.length = r.nums.length := tnOf_length P sg r.nums
+  set C := passOffset P sg r with hC
+  have htni : ∀ i (hi : i < tn.length) (hi' : i < r.nums.length), tn[i] = ((lineIdx sg r.nums[i] : Int) : Rat) * P := by
+    intro i hi hi'
+    simp only [htn, tnOf, List.getElem_map]
+  set offs := offsetsOf t1 tn with hoffs
+  have hofflen : offs.length = r.nums.length := by
+    simp [hoffs, offsetsOf, hlen1, htnlen]
+  have hoffi : ∀ i (hi : i < offs.length) (h1 : i < t1.length) (h2 : i < tn.length), offs[i] = ((t1[i] : Int) : Rat) - tn[i] := by
+    intro i hi h1 h2
+    simp only [hoffs, offsetsOf, List.getElem_zipWith]
+  have hreclen : (recorded r).length = r.nums.length := by
+    simp [recorded, hc.len_y, hc.len_j, hc.len_m]
+  let q : Rat → Bool := fun o => inBand (C - 0) (C + 0) o && decide (absR (o - (h : Rat)) ≤ ({} : S2Params).maxDiffHead)
+  have hq : ∀ i (h1 : i < good.length) (h2 : i < offs.length), good[i] = true → q offs[i] = true := by
+    intro i h1 h2 hg
+    have hi : i < r.nums.length := by omega
+    have hs1 : i < (s1Instants (stage1 P sg nowYear r)).length := by rw [← ht1, hlen1]; exact hi
+    have hb := (s1_good_exact P sg nowYear r hc hy hP i hi hs1 (by omega) (hgood i h1 hg)).1
+    rw [hoffi i h2 (by omega) (by omega), htni i (by omega) hi]
+    rw [absR_le_iff] at hhead
+    have hmd : ({} : S2Params).maxDiffHead = 360000 := rfl
+    simp only [q, inBand, Bool.and_eq_true, decide_eq_true_eq, hmd]
+    have hb' : ((t1[i]'(by omega) : Int) : Rat) = ((lineIdx sg r.nums[i] : Int) : Rat) * P + C := hb
+    refine ⟨⟨by linarith, by linarith⟩, ?_⟩
+    rw [absR_le_iff]
+    constructor <;> linarith [hhead.1, hhead.2]
+  have hcount := count_true_le_countP offs good q (by omega) hq
+  set near := nearOf {} h offs with hnear
+  have hnearband : near.countP (inBand (C - 0) (C + 0)) = offs.countP q := by
+    simp only [hnear, nearOf, List.countP_filter, q]
+  have hnearlen : near.length ≤ r.nums.length := by
+    rw [← hofflen, hnear, nearOf]; exact List.length_filter_le _ _
+  have hmaj' : near.length < 2 * near.countP (inBand (C - 0) (C + 0)) := by
+    rw [hnearband]; omega
+  have ht0 := t0_in_band near C 0 hmaj'
+  have hnpos : 0 < r.nums.length := hc.n_pos
+  have hfrac : ({} : S2Params).minFrac ≤ (near.length : Rat) / (r.nums.length : Rat) := by
+    have hge : near.countP (inBand (C - 0) (C + 0)) ≤ near.length := List.countP_le_length
+    have : (r.nums.length : Rat) < 2 * (near.length : Rat) := by
+      have : r.nums.length < 2 * near.length := by omega
+      exact_mod_cast this
+    have hn : (0 : Rat) < (r.nums.length : Rat) := by exact_mod_cast hnpos
+    have hmf : ({} : S2Params).minFrac = 1 / 100 := rfl
+    rw [hmf, le_div_iff₀ hn]
+    linarith
+  have hs2 : stage2 {} P sg r.nums (some h) t1 = .times (List.zipWith (repairLine {} (medianD near)) t1 tn) := by
+    unfold stage2
+    simp only [hdec, Bool.false_eq_true, if_false]
+    rw [if_pos hfrac]
+  have hget : getTimes {} P nowYear sg (some h) r = List.zipWith (repairLine {} (medianD near)) t1 tn := by
+    unfold getTimes
+    simp only [← ht1, hs2]
+  rw [hget]
+  refine ⟨by simp [hlen1, htnlen], ?_⟩
+  intro i hi h1 h2 h3 h4
+  rw [List.getElem_zipWith]
+  have hspec := repairLine_spec {} (medianD near) C 0 (t1[i]'(by omega)) (tn[i]'(by omega)) ht0
+  have hmi : ({} : S2Params).maxDiffIdeal = 10000 := rfl
+  rw [hmi] at hspec
+  have e := htni i (by omega) hi
+  obtain ⟨p, hp⟩ := hP
+  have htrue_int : ∃ w : Int, tn[i]'(by omega) + C = (w : Rat) := by
+    rw [e, hC]
+    unfold passOffset
+    refine ⟨lineIdx sg r.nums[i] * p + (instant (r.year.headD 0) (r.jday.headD 0) (r.msec.headD 0)
+      - lineIdx sg (r.nums.headD 0) * p), ?_⟩
+    rw [hp]; push_cast; ring
+  obtain ⟨w, hw⟩ := htrue_int
+  have hexact : ∀ v : Int, absR (((v : Int) : Rat) - (tn[i]'(by omega) + C)) < 1 →
+      ((v : Int) : Rat) = tn[i]'(by omega) + C := by
+    intro v hv
+    rw [hw] at hv ⊢
+    have : absR (((v - w : Int) : Rat)) < 1 := by push_cast; exact hv
+    have := int_abs_lt_one (v - w) this
+    have hvw : v = w := by omega
+    rw [hvw]
+  rw [← e]
+  refine ⟨?_, ?_, ?_⟩
+  · rcases hspec.2.1 with hle | hlt
+    · linarith
+    · have hlt' := lt_of_lt_of_eq hlt (zero_add (1 : Rat))
+      have := hexact _ hlt'
+      rw [this]
+      have : absR (tn[i]'(by omega) + C - (tn[i]'(by omega) + C)) = 0 := by simp [absR]
+      linarith
+  · intro hg
+    have hs1 : i < (s1Instants (stage1 (p : Rat) sg nowYear r)).length := by rw [← hp, ← ht1, hlen1]; exact hi
+    have hge := s1_good_exact P sg nowYear r hc hy ⟨p, hp⟩ i hi (by rw [← ht1, hlen1]; exact hi) h2 (hgood i h3 hg)
+    have hkeep := hspec.1 (by
+      have : ((t1[i]'(by omega) : Int) : Rat) = tn[i]'(by omega) + C := by rw [e]; exact hge.1
+      rw [this]; simp [absR])
+    rw [hkeep]
+    exact hge.2
+  · intro hfar
+    have := hspec.2.2 (by linarith)
+    exact hexact _ (lt_of_lt_of_eq this (zero_add (1 : Rat)))
+
 /-- the same for the 40 % guarantee (scenario `Garbled`: years intact, garbage in the day-of-year and ms fields of
 fewer than 40 % of the lines): exact for a whole-millisecond period -/
 theorem repair_day_ms_garbage_exact (P : Rat) (sg : Bool) (nowYear : Int) (hd : Int) (r0 r : RawTimes) (good : List Bool)
